@@ -1,13 +1,13 @@
 package main
 
 import (
-	"go/ast"
-	"sync"
 	"fmt"
+	"go/ast"
 	"go/token"
 	"go/types"
 	"sort"
 	"strings"
+	"sync"
 
 	"golang.org/x/tools/go/ssa"
 )
@@ -29,57 +29,63 @@ type Obligation struct {
 }
 
 type Exec struct {
-	w     *World
-	cs    *ContractSet
-	smt   *SMT
-	ti    *TypeInfo
-	assumptions []string
-	obls  []*Obligation
-	fnKey string
-	props []string
-	quant    int // inside a quantifier body: no definitions, no assumptions
-	quantAnte []Term
-	spec     int // executing specification code: no safety obligations
-	oldHeaps []*State
-	errs  []string
-	ncell int
-	depth int
-	oblNames map[string]int
-	curLabel string
-	entry *State
-	trust []string // assumptions used (ext contracts, trusted contracts, dropped constructs)
-	trustSeen map[string]bool
-	inlineStack []string
-	recFns map[string]bool
-	modCollect *[]*Ptr
-	havocEverything bool
-	triggers []Term
-	notes []string
-	topMods []*Ptr
-	topStar bool
-	ghostSorts map[string]string
-	ghostIdx map[string]string
-	boxAx map[string]bool
-	acqCache map[*ssa.Function]bool
-	frameStack []*frame
+	w                                 *World
+	cs                                *ContractSet
+	smt                               *SMT
+	ti                                *TypeInfo
+	assumptions                       []string
+	obls                              []*Obligation
+	fnKey                             string
+	props                             []string
+	quant                             int // inside a quantifier body: no definitions, no assumptions
+	quantAnte                         []Term
+	spec                              int // executing specification code: no safety obligations
+	oldHeaps                          []*State
+	errs                              []string
+	ncell                             int
+	depth                             int
+	oblNames                          map[string]int
+	curLabel                          string
+	entry                             *State
+	trust                             []string // assumptions used (ext contracts, trusted contracts, dropped constructs)
+	trustSeen                         map[string]bool
+	inlineStack                       []string
+	recFns                            map[string]bool
+	modCollect                        *[]*Ptr
+	havocEverything                   bool
+	triggers                          []Term
+	notes                             []string
+	topMods                           []*Ptr
+	topStar                           bool
+	ghostSorts                        map[string]string
+	ghostIdx                          map[string]string
+	boxAx                             map[string]bool
+	acqCache                          map[*ssa.Function]bool
+	frameStack                        []*frame
 	nGuard, nGuardSyntactic, nLockOps int
-	entryAlloc Term
-	topCt *Contract
-	nepoch int
-	boxInfo map[string]boxed
-	curCall *ssa.CallCommon
-	curFrame *frame
-	pcMu sync.Mutex
-	noQuick bool
-	assumeSeen map[string]bool
-	assumeGuard []string
-	pcParents map[string][]string
-	topRets []retInfo
-	mapSeqs map[string]Term
-	topArgs []Value
-	recDefs map[string]bool
-	recBuilding map[string]bool
-	ghostByType map[string][]*ssa.Function
+	entryAlloc                        Term
+	topCt                             *Contract
+	nepoch                            int
+	boxInfo                           map[string]boxed
+	curCall                           *ssa.CallCommon
+	curFrame                          *frame
+	pcMu                              sync.Mutex
+	noQuick                           bool
+	assumeSeen                        map[string]bool
+	assumeGuard                       []string
+	// assumptions that belong to one property's run only (a precondition stated for that property, and what
+	// rests on it): assumeProps[i] is nil for ordinary assumptions; curAssumeProps tags the assumptions made
+	// while it is set; runProp is the property being decided ("" = all, e.g. `govc fn`)
+	assumeProps    [][]string
+	curAssumeProps []string
+	runProp        string
+	pcParents      map[string][]string
+	topRets        []retInfo
+	mapSeqs        map[string]Term
+	topArgs        []Value
+	recDefs        map[string]bool
+	recBuilding    map[string]bool
+	ghostByType    map[string][]*ssa.Function
 }
 
 func newExec(w *World, cs *ContractSet, fnKey string, props []string) *Exec {
@@ -116,12 +122,14 @@ func (e *Exec) assume(st *State, fact Term) {
 	if e.assumeSeen == nil {
 		e.assumeSeen = map[string]bool{}
 	}
-	if e.assumeSeen[txt] {
+	key := txt + "|" + strings.Join(e.curAssumeProps, ",")
+	if e.assumeSeen[key] {
 		return
 	}
-	e.assumeSeen[txt] = true
+	e.assumeSeen[key] = true
 	e.assumptions = append(e.assumptions, txt)
 	e.assumeGuard = append(e.assumeGuard, st.pc.S)
+	e.assumeProps = append(e.assumeProps, e.curAssumeProps)
 }
 
 func (e *Exec) assumeGlobal(fact Term) {
@@ -130,6 +138,7 @@ func (e *Exec) assumeGlobal(fact Term) {
 	}
 	e.assumptions = append(e.assumptions, "(assert "+fact.S+")")
 	e.assumeGuard = append(e.assumeGuard, "")
+	e.assumeProps = append(e.assumeProps, nil)
 }
 
 func (e *Exec) oblige(st *State, kind, name string, goal Term, where string) {
@@ -541,23 +550,23 @@ func (e *Exec) asPtr(v Value, ptrType types.Type) *Ptr {
 // frames
 
 type frame struct {
-	fn    *ssa.Function
-	vals  map[ssa.Value]Value
-	cells map[*ssa.Alloc]*Cell
-	c     *Contract
-	curIns []edgeIn
-	curBlock *ssa.BasicBlock
-	iterPos map[ssa.Value]*Cell
-	iterCount map[ssa.Value]*Cell
-	iterOf  map[ssa.Value]Value
-	entryState *State
-	bindings []Value
-	loopHeads map[*ssa.BasicBlock]int // header -> ordinal
-	args  []Value
-	entryArgs []Value
+	fn           *ssa.Function
+	vals         map[ssa.Value]Value
+	cells        map[*ssa.Alloc]*Cell
+	c            *Contract
+	curIns       []edgeIn
+	curBlock     *ssa.BasicBlock
+	iterPos      map[ssa.Value]*Cell
+	iterCount    map[ssa.Value]*Cell
+	iterOf       map[ssa.Value]Value
+	entryState   *State
+	bindings     []Value
+	loopHeads    map[*ssa.BasicBlock]int // header -> ordinal
+	args         []Value
+	entryArgs    []Value
 	rangeIdxCell map[*ssa.BasicBlock]*Cell
-	panicExits []*State // states in which a `maypanic` callee panicked inside this frame
-	parent *frame // the frame this one is executed in place for (inlined callee / closure), if any
+	panicExits   []*State // states in which a `maypanic` callee panicked inside this frame
+	parent       *frame   // the frame this one is executed in place for (inlined callee / closure), if any
 }
 
 func (e *Exec) constVal(c *ssa.Const) Value {
@@ -621,11 +630,11 @@ func (e *Exec) term(fr *frame, st *State, v ssa.Value) Term {
 // CFG helpers
 
 type loopInfo struct {
-	follow *ssa.BasicBlock
+	follow     *ssa.BasicBlock
 	followDone bool
-	head   *ssa.BasicBlock
-	blocks map[*ssa.BasicBlock]bool
-	ord    int
+	head       *ssa.BasicBlock
+	blocks     map[*ssa.BasicBlock]bool
+	ord        int
 }
 
 func backEdges(fn *ssa.Function) map[*ssa.BasicBlock][]*ssa.BasicBlock {
